@@ -4200,6 +4200,11 @@ bool llbuild::buildsystem::pathIsPrefixedByPath(std::string path,
                std::string::npos;
   }
   auto res = std::mismatch(prefixPath.begin(), prefixPath.end(), path.begin());
+  // A prefix that was matched completely and is itself spelled with a trailing
+  // separator ("/foo/") ends on a component boundary of `path` ("/foo/bar").
+  if (res.first == prefixPath.end() && !prefixPath.empty() &&
+      pathSeparators.find(prefixPath.back()) != std::string::npos)
+    return true;
   // Check if `prefixPath` has been exhausted or just a separator remains.
   bool isPrefix = res.first == prefixPath.end() ||
                   (pathSeparators.find(*(res.first++)) != std::string::npos);
